@@ -206,7 +206,11 @@ func (cdd *CircularDependencyDetector) processComponents() []*CircularDependency
 		if circularDeps[i].Severity != circularDeps[j].Severity {
 			return cdd.severityOrder(circularDeps[i].Severity) > cdd.severityOrder(circularDeps[j].Severity)
 		}
-		return circularDeps[i].Size > circularDeps[j].Size
+		if circularDeps[i].Size != circularDeps[j].Size {
+			return circularDeps[i].Size > circularDeps[j].Size
+		}
+		// Components are disjoint and sorted: the first module identifies a cycle
+		return circularDeps[i].Modules[0] < circularDeps[j].Modules[0]
 	})
 
 	return circularDeps
@@ -225,7 +229,14 @@ func (cdd *CircularDependencyDetector) findDependencyChains(modules []string) []
 	// Find direct dependencies between modules in the component
 	for _, from := range modules {
 		if node := cdd.graph.Nodes[from]; node != nil {
+			// Visit the dependencies in name order so that the chain order is stable
+			targets := make([]string, 0, len(node.Dependencies))
 			for to := range node.Dependencies {
+				targets = append(targets, to)
+			}
+			sort.Strings(targets)
+
+			for _, to := range targets {
 				if moduleSet[to] {
 					// Find the shortest path from 'from' to 'to' within the component
 					path := cdd.findPathInComponent(from, to, moduleSet)
